@@ -281,10 +281,10 @@ def evaluation_points(sa, leaves, a, b, d, r, n_random):
     return sorted(pts)
 
 
-def check_assignment(ctx, sa, leaves, pts, d, wclass):
+def check_assignment(ctx, sa, leaves, pts, d, wclass, same_object=False):
     assign = None
     with ctx.guard("B.hist.assignment", SITE_ASSIGN, wclass + "-raises"):
-        assign = sa.get_points_assignement_to_areas(list(pts))
+        assign = sa.get_points_assignement_to_areas(pts if same_object else list(pts))
     if assign is None:
         return {}
     ids = set(map(id, leaves))
@@ -309,6 +309,21 @@ def check_assignment(ctx, sa, leaves, pts, d, wclass):
 def check_step(ctx, sa, rec, f, a, b, d, r, wclass, lmin0, tag=""):
     wclass = wclass + tag
     leaves = check_tiling(ctx, sa, a, b, d, wclass)
+    # A caller-owned list of evaluation points that is handed over again and again (the SAME list object at every stop of the history, as a user who
+    # monitors fixed probe points does): assignment to the CURRENT leaves and the interpolated values must not depend on what was asked before.
+    # It is the first query after the refinement step and (see the end of this function) the last one before the next step.
+    probe = getattr(sa, "_verif_probe_points", None)
+    if probe is None:
+        probe = [tuple(float(a[i] + (b[i] - a[i]) * r.random()) for i in range(d)) for _ in range(10)]
+        sa._verif_probe_points = probe
+    check_assignment(ctx, sa, leaves, probe, d, wclass + "/same-list-object", same_object=True)
+    with ctx.guard("B.hist.idempotent", SITE_CALL, wclass + "/same-list-object-raises"):
+        import numpy as np
+        with quiet():
+            v_same = np.asarray(sa(probe), dtype=float)
+            v_copy = np.asarray(sa(list(probe)), dtype=float)
+        ctx.check("B.hist.idempotent", np.array_equal(v_same, v_copy), SITE_CALL, wclass + "/same-list-object",
+                  "__call__ on the caller's probe list (same object as at earlier stops) differs from __call__ on a fresh copy of it: %s vs %s" % (v_same[:3].tolist(), v_copy[:3].tolist()))
     lmin = sa.lmin[0]
     site_w = vclass(sa.version, lmin) + tag
     # grids actually evaluated for every leaf in the last evaluate_operation passes (recorded at Integration.evaluate_area)
@@ -392,6 +407,8 @@ def check_step(ctx, sa, rec, f, a, b, d, r, wclass, lmin0, tag=""):
                 worst, wp = e, p
     ctx.check("B.hist.interpolation", worst <= 1e-9, SITE_CALL, site_w,
               "interpolant differs from f by %.3e (scaled) at grid point %s of its leaf (%d grid points checked)" % (worst, wp, n))
+    with ctx.guard("B.hist.assignment", SITE_ASSIGN, wclass + "/same-list-object-raises"):
+        sa.get_points_assignement_to_areas(probe)      # last query of this stop: the probe list again
 
 
 def history_case(ctx, case):
